@@ -1,6 +1,7 @@
 package main
 
 import (
+	"encoding/json"
 	"fmt"
 	"math"
 	"sort"
@@ -204,28 +205,30 @@ func (s *GenomeSpec) Key() string {
 	return b.String()
 }
 
-func wclass(w float64) byte {
-	switch {
-	case w < 0:
-		return '-'
-	case w > 0:
-		return '+'
-	}
-	return '0'
-}
-
 // StructKey is the canonical structural key used to deduplicate GenomeSpace
-// states: exact weights and trait parameters are dropped (no operator branches
-// on them), their sign class and the "mutation number mirrors weight" bit are kept.
+// states. Dropped: exact weights, mutation numbers and trait parameters, and WHICH
+// trait a node or gene points to (only whether it has one). Argument that merged
+// states have the same structural futures: no operator branches on a weight, a
+// mutation number or a trait parameter (the only value test is the clamp
+// `Params[i] < 0 -> 0` inside Trait.Mutate), and a trait reference is only ever
+// copied or re-pointed, a nil one being the single case that is treated specially
+// (index 0 in crossover). Oracles that talk about weights or traits run on the
+// concrete representative of every transition before deduplication.
 func (s *GenomeSpec) StructKey() string {
 	var b strings.Builder
+	nz := func(t int) byte {
+		if t == 0 {
+			return '0'
+		}
+		return 't'
+	}
 	fmt.Fprintf(&b, "t%d|", len(s.Traits))
 	for _, n := range s.Nodes {
-		fmt.Fprintf(&b, "N%d:%d:%d:%d;", n.ID, n.Role, n.Act, n.Trait)
+		fmt.Fprintf(&b, "N%d:%d:%d:%c;", n.ID, n.Role, n.Act, nz(n.Trait))
 	}
 	b.WriteByte('|')
 	for _, g := range s.Genes {
-		fmt.Fprintf(&b, "G%d:%d>%d:%v:%v:%d:%c%v;", g.Innov, g.In, g.Out, g.Rec, g.En, g.Trait, wclass(g.W), g.Mut == g.W)
+		fmt.Fprintf(&b, "G%d:%d>%d:%v:%v:%c;", g.Innov, g.In, g.Out, g.Rec, g.En, nz(g.Trait))
 	}
 	return b.String()
 }
@@ -493,3 +496,6 @@ func relClose(a, b, tol float64) bool {
 	m := math.Max(math.Abs(a), math.Abs(b))
 	return d <= tol*m
 }
+
+func jsonMarshal(v interface{}) ([]byte, error) { return json.Marshal(v) }
+func jsonUnmarshal(b []byte, v interface{}) error { return json.Unmarshal(b, v) }
